@@ -1,0 +1,66 @@
+//go:build verif
+
+// Machine-checked contracts (read by /verif/bin/fsv; comment-only, guarded by the verif tag).
+// C18 (narrowed to what a contract can state): retryable classification, Retry-After, request pass-through.
+
+package failsafehttp
+
+// Environment (assumed)
+//@ extfunc error.Error
+//@   modifies nothing
+//@ extfunc regexp.(*Regexp).MatchString
+//@   recorded
+//@   modifies nothing
+//@ extfunc strconv.Atoi
+//@   recorded
+//@   modifies nothing
+//@ extfunc github.com/failsafe-go/failsafe-go.ExecutionAttempt.LastResult
+//@   modifies nothing
+//@ extfunc net/http.(*Request).Context
+//@   modifies nothing
+//@   ensures result != nil && result == uf("ctxofreq", r)
+//@ extfunc net/http.(*Request).WithContext
+//@   returnsfresh
+//@   modifies nothing
+//@   ensures result != nil && fresh(result) && result.Method == r.Method && result.URL == r.URL && result.Header == r.Header && result.Body == r.Body && result.ContentLength == r.ContentLength && result.Host == r.Host && uf("reqctx", result) == ctx
+//@ extfunc io.NopCloser
+//@   modifies nothing
+//@   ensures result != nil && uf("wraps", result) == r
+
+// which outcomes are retried: 429 and 5xx except 501; never a nil response without error
+//@ func RetryPolicyBuilder$1
+//@   ensures [C18.retryable.statuses] err == nil && resp != nil ==> result == (resp.StatusCode == 429 || (resp.StatusCode >= 500 && resp.StatusCode != 501))
+//@   ensures [C18.retryable.no_response] err == nil && resp == nil ==> !result
+//@   ensures [C18.retryable.unsupported_scheme] err != nil && retb(extfn("regexp.(*Regexp).MatchString"), 1) ==> !result
+//@   ensures [C18.retryable.other_errors] err != nil && !retb(extfn("regexp.(*Regexp).MatchString"), 1) && !typeis(err, *url.Error) ==> result
+//@   havoc
+//@   modifies methodcalls, calls(extfn("regexp.(*Regexp).MatchString")), calls(extfn("net/url.(*Error).Error"))
+
+// Retry-After in seconds is honoured for 429 and 503; otherwise no computed delay
+//@ func DelayFunc
+//@   requires exec != nil
+//@   ext resp := cast(ret(exec.LastResult, 1), *http.Response)
+//@   let eligible := resp != nil && (resp.StatusCode == 429 || resp.StatusCode == 503) && maphas(resp.Header, "Retry-After")
+//@   premise resp != nil && maphas(resp.Header, "Retry-After") ==> mapgetlen(resp.Header, "Retry-After") >= 1
+//@   premise ret(extfn("strconv.Atoi"), 1, 0) >= 0 && ret(extfn("strconv.Atoi"), 1, 0) <= 8589934592
+//@   ensures [C18.retry_after.honoured] eligible && ret(extfn("strconv.Atoi"), 1, 1) == nil ==> result == 1000000000 * ret(extfn("strconv.Atoi"), 1, 0)
+//@   ensures [C18.retry_after.none] !eligible ==> result == -1
+//@   ensures [C18.retry_after.unparsable] eligible && ret(extfn("strconv.Atoi"), 1, 1) != nil ==> result == -1
+//@   havoc
+//@   modifies calls(exec.LastResult), calls(extfn("strconv.Atoi"))
+
+// One attempt: the request handed on is the caller's request under the merged context (same method, URL, headers,
+// host, length), its body is what bodyFunc produced for this attempt, and the response / error are passed back untouched.
+//@ func doRequest$1
+//@   requires request != nil && reqFn != nil && exec != nil
+//@   oncall MergeContexts: mctx := callresult_0; cf := callresult_1
+//@   beforecall reqFn: assert [C18.attempt.same_request] callarg_0 != nil && callarg_0.Method == old(request.Method) && callarg_0.URL == old(request.URL) && callarg_0.Header == old(request.Header) && callarg_0.Host == old(request.Host) && callarg_0.ContentLength == old(request.ContentLength) && uf("reqctx", callarg_0) == mctx
+//@   beforecall reqFn: assert [C18.attempt.fresh_body] bodyFunc != nil ==> ncalls(bodyFunc) == 1 && (callarg_0.Body == reti(bodyFunc, 1, 0) || uf("wraps", callarg_0.Body) == reti(bodyFunc, 1, 0))
+//@   beforecall reqFn: assert [C18.attempt.original_body_when_no_bodyfunc] bodyFunc == nil ==> callarg_0.Body == old(request.Body)
+//@   let bodyErr := bodyFunc != nil && reti(bodyFunc, 1, 1) != nil
+//@   ensures [C18.attempt.body_error] bodyErr ==> ncalls(reqFn) == 0 && result_0 == nil && result_1 == reti(bodyFunc, 1, 1)
+//@   ensures [C18.attempt.passthrough] !bodyErr ==> ncalls(reqFn) == 1 && result_0 == ret(reqFn, 1, 0) && result_1 == reti(reqFn, 1, 1)
+//@   ensures [C18.response_ctx_live.single_context] (uf("ctxofreq", old(request)) == background() || reti(exec.Context, 1) == background()) ==> cf == extfn("github.com/failsafe-go/failsafe-go/internal/util.noop")
+//@   ensures [C18.response_ctx_live] !bodyErr && result_1 == nil && result_0 != nil ==> ncalls(cf) == 0 || cf == extfn("github.com/failsafe-go/failsafe-go/internal/util.noop")
+//@   havoc
+//@   modifies *
